@@ -14,13 +14,13 @@ RULE = ("1-3 local TagLibrary objects and the module-level API; 5-40 ops from ad
         "method names, dunders, (global library) module globals, arbitrary strings; ids from -2 to len+2 and far beyond; "
         "non-trivial = >=3 accepted tags, >=1 rejected add between two accepted ones and >=1 hostile name; distinct = "
         "sequence of (library, op, name class, outcome)"
-        "; also: builtin names, module-type attributes (__annotations__ ...), many more dunders, private attribute names looked up on the global library, names holding format / template syntax ({x}, %s, ...) added twice")
+        "; also: builtin names, module-type attributes (__annotations__ ...), many more dunders, private attribute names looked up on the global library, names holding format / template syntax ({x}, %s, ...) added twice, names given as members of a str-valued Enum")
 COMPONENTS = {"real": ["ECAgent.Tags.TagLibrary (add_tag, get_tag_name, itemize, __len__, attribute lookup)",
                        "module-level add_tag / get_tag_name / itemize / __getattr__ and the global library"],
               "stub": ["none"]}
 PROBES = ["hostile_method_name", "hostile_private_attr", "hostile_dunder", "hostile_module_global", "hostile_arbitrary",
           "two_libraries_interleaved", "failed_add_consumes_no_id", "duplicate_rejected", "none_rejected",
-          "id_out_of_range_rejected", "global_library_used", "hostile_accepted", "hostile_rejected", "private_name_looked_up_on_global_library"]
+          "id_out_of_range_rejected", "global_library_used", "hostile_accepted", "hostile_rejected", "private_name_looked_up_on_global_library", "name_given_as_str_enum_member"]
 TECHNIQUE = "deterministic simulation: seeded add/lookup histories with hostile names over several libraries, pristine forked process per history, list reference with bijection invariants"
 LEVEL_TEXT = ("Seeded search over tag-name histories on local libraries and the global one; after every operation, for every "
               "library: length, itemised list, id->name for every id inside and outside the range, name->id for every accepted "
@@ -43,6 +43,11 @@ ARBITRARY = ["", " ", "two words", "9lives", "naïve", "a.b", "SHEEP\n", "None",
              # text that means something to str.format / %-formatting / templates (error messages quote the name)
              "{x}", "{}", "{0}", "a{b", "}{", "{{a}}", "{0!r:>10}", "%s", "%(x)s", "100%", "%d%%", "${HOME}", "\\", "'q'", "tab\there"]
 PLAIN = ["SHEEP", "WOLF", "GRASS", "PREY", "A", "B", "C", "tag_1", "x"]
+
+
+# the same plain names as members of a str-valued Enum (class Species(str, Enum)): equal to the plain string, hash alike,
+# but str(member) is 'Species.PREY' - a name given this way is still the tag 'PREY'
+SPECIES = __import__("enum").Enum("Species", {n: n for n in PLAIN}, type=str)
 
 
 def name_class(n):
@@ -79,6 +84,8 @@ def generate(rng, tier):
             else:
                 name = rng.choice(PLAIN)
             ops.append({"lib": lib, "op": "add", "name": name})
+            if name in PLAIN and rng.random() < 0.12:
+                ops[-1]["as_enum"] = True
             if h < hostile_rate and rng.random() < 0.35:
                 ops.append({"lib": lib, "op": "add", "name": name})      # ... and once more: rejected as a duplicate
         elif r < 0.65:
@@ -191,7 +198,11 @@ def execute(sc, ctx):
                 ctx.probe("failed_add_consumes_no_id")
                 shape.append([str(key), "dup", cls])
             elif cls == "plain":
-                ctx.expect_ok("add", L.add, name)
+                if op.get("as_enum") and name in PLAIN:
+                    ctx.probe("name_given_as_str_enum_member")
+                    ctx.expect_ok("add", L.add, SPECIES[name])
+                else:
+                    ctx.expect_ok("add", L.add, name)
                 names.append(name)
                 if pending_rej.pop(key, False) and len(names) >= 3:
                     flags["rej_between"] = True
